@@ -14,7 +14,7 @@ if [ -n "${SEED_FROM_HEAD:-}" ]; then
 else
   rsync -a --exclude .git --exclude .work /verif/ $ISO/verif/
 fi
-(cd $ISO/repo && patch -s -p1 < /verif/seeded/$NAME/patch.diff) || { echo "patch does not apply"; rm -rf $ISO; exit 2; }
+(cd $ISO/repo && patch -s -p1 < ${SEED_PATCH:-/verif/seeded/$NAME/patch.diff}) || { echo "patch does not apply"; rm -rf $ISO; exit 2; }
 sed -i "s|path = \"/repo\"|path = \"$ISO/repo\"|" $ISO/verif/harness/Cargo.toml $ISO/verif/harness20/Cargo.toml
 grep -rl '"/verif/' $ISO/verif/harness/src | xargs -r sed -i "s|\"/verif/|\"$ISO/verif/|g"
 python3 $ISO/verif/tools/check.py $PROP --tier $TIER > /verif/.work/seed_${NAME}_${PROP}.log 2>&1; RC=$?
